@@ -49,6 +49,9 @@ class Hooks:
         self.proposals = 0         # outer proposals drawn (budget)
         self._saved = []
         self._depth = 0
+        self.capture = None
+        self.capture_proposals = any(getattr(m, 'WANTS_PROPOSALS', False) for m in self.monitors)
+        self.last_proposals = None
         self._member_draws = 0
         self._rounds = 0
         self._t_enter = _time.monotonic()
@@ -119,7 +122,12 @@ class Hooks:
 
         def sample_shell(self, index, *a, **kw):
             h0 = hooks.handed_out
-            r = o_ss(self, index, *a, **kw)
+            hooks.capture = [] if hooks.capture_proposals else None
+            try:
+                r = o_ss(self, index, *a, **kw)
+            finally:
+                cap, hooks.capture = hooks.capture, None
+            hooks.last_proposals = np.vstack(cap) if cap else None
             hooks.emit('after_sample_shell', self, index, r, hooks.handed_out - h0)
             return r
         self._patch(S, 'sample_shell', sample_shell)
@@ -168,6 +176,8 @@ class Hooks:
             r = o_ucs(self, n_points, pool=pool)
             if hooks._depth == 0:      # not the cube of a mixture member inside a NautilusBound
                 hooks._tick()
+                if hooks.capture is not None:
+                    hooks.capture.append(np.array(r, copy=True))
                 hooks.handed_out += len(r)
                 hooks.proposals += len(r)
                 if hooks.budget is not None and hooks.proposals > hooks.budget:
@@ -186,6 +196,8 @@ class Hooks:
             if hooks._depth == 0:
                 hooks._tick()
             if r is not None and hooks._depth == 0:
+                if hooks.capture is not None:
+                    hooks.capture.append(np.array(r, copy=True))
                 hooks.handed_out += len(r)
             return r
         self._patch(NautilusBound, 'sample', nb_sample)
